@@ -304,7 +304,7 @@ add("Polyline.sliced_by_plane", YO + "sliced_by_plane", recv="polyline_open",
     call=lambda r, a: r.sliced_by_plane(__import__("polliwog").Plane((r.v[0] + r.v[1]) / 2, np.array([1.0, 0.0, 0.0]))))
 add("Polyline.sliced_at_indices", YO + "sliced_at_indices", recv="polyline", call=meth("sliced_at_indices"),
     kwargs={"start": 1, "stop": 3})
-add("Polyline.nearest", YO + "nearest", {"points": "pt"}, [{"points": S3}, {"points": K3}], recv="polyline",
+add("Polyline.nearest", YO + "nearest", {"points": "nearpoly"}, [{"points": S3}, {"points": K3}], recv="polyline",
     call=meth("nearest"), stack=dict(args=["points"], single=True, empty=False))
 add("Polyline.sliced_at_points", YO + "sliced_at_points", {"start_point": "vertex", "end_point": "vertex2"},
     [{"start_point": S3, "end_point": S3}], recv="polyline_open", call=meth("sliced_at_points"))
@@ -399,7 +399,7 @@ variants("CompositeTransform.transform_matrix_for", _prod(reverse=[False, True],
 variants("CoordinateManager.do_transform", [dict(from_tag="a", to_tag="c"), dict(from_tag="c", to_tag="a"),
                                             dict(from_tag="b", to_tag="c"), dict(from_tag="c", to_tag="b")])
 variants("segment.closest_point_of_line_segment", _prod(ret_t_values=[False, True]))
-variants("Polyline.nearest", [dict(), dict(ret_segment_indices=True), dict(ret_segment_indices=True, ret_distances=True, ret_t_values=True)])
+variants("Polyline.nearest", _prod(ret_segment_indices=[False, True], ret_distances=[False, True], ret_t_values=[False, True]))
 for _n in ("Plane.points_in_front", "Plane.points_on_or_in_front"):
     variants(_n, _prod(inverted=[False, True], ret_indices=[False, True]))
 for _n in ("tri.surface_normals", "plane.plane_normal_from_points", "tri.edges_of_faces"):
